@@ -311,6 +311,28 @@ def run_history(ns, mon, case):
                 w.events.append(["optimizer_step_lr0", type(o).__name__])
                 kinds.append("step0")
                 compare_ledger("optimizer-step")
+            elif r < 0.885:
+                # a snapshot copy (target network, EMA teacher, checkpoint in memory) taken while the leaves hold gradients, then trained on its own:
+                # the originals are not reachable from that root
+                import copy as _copy
+                li_ = [i for i, l in enumerate(LEAVES) if l["req"]]
+                li_ = li_[int(rng.integers(len(li_)))]
+                try:
+                    cp = _copy.deepcopy(w.module) if rng.random() < 0.5 else _copy.deepcopy(w.params[li_])
+                    cps = cp.parameters() if hasattr(cp, "parameters") else [cp]
+                    tot_ = None
+                    for q in cps:
+                        if q.requires_grad:
+                            t_ = (q * q).sum()
+                            tot_ = t_ if tot_ is None else tot_ + t_
+                    if tot_ is not None:
+                        tot_.backward()
+                    w.events.append(["deepcopy_and_backward_through_the_copy"])
+                    kinds.append("deepcopy")
+                    counters["deepcopy_events"] = counters.get("deepcopy_events", 0) + 1
+                    compare_ledger("backward-through-a-deep-copy")
+                except Exception as e:
+                    counters["deepcopy_rejected"] = counters.get("deepcopy_rejected", 0) + 1
             else:
                 k = ["zero_tensor", "zero_module", "zero_optimizer"][int(rng.integers(3))]
                 reset(k)
